@@ -328,6 +328,15 @@ func (x *Exec) havocLoop(st *State, fr *Frame, frameIdx int, h *ssa.BasicBlock, 
 	}
 	sort.Strings(names)
 	for _, n := range names {
+		if refs := ws.preciseCells[n]; len(refs) > 0 && !ws.wholeCells[n] {
+			// only these package-level variables are written in the loop: every other cell of the type keeps its value
+			h := st.getHeap(n, ws.heaps[n])
+			for _, r := range refs {
+				h = mkStore(h, r, x.fresh("loophavoc_cell", ws.preciseSort[n]))
+			}
+			st.heap[n] = h
+			continue
+		}
 		st.heap[n] = x.fresh("loophavoc_"+n, ws.heaps[n])
 	}
 	if ws.allocs {
@@ -338,6 +347,11 @@ func (x *Exec) havocLoop(st *State, fr *Frame, frameIdx int, h *ssa.BasicBlock, 
 }
 
 type writeSet struct {
+	// preciseCells: cell heaps written only at the listed references (package-level variables named by a callee's
+	// `modifies cell(addrof(g))`); a heap also written in any other way appears in wholeCells and is forgotten entirely
+	preciseCells map[string][]*Term
+	preciseSort  map[string]Sort
+	wholeCells   map[string]bool
 	iters      []*ssa.Range
 	heaps      map[string]Sort
 	locals     map[*ssa.Alloc]bool
@@ -357,6 +371,10 @@ func (ws *writeSet) addType(T types.Type, kind string) {
 		switch kind {
 		case "cell":
 			ws.heaps[cellHeapName(T, c.Suffix)] = arrSort(SInt, c.Sort)
+			if ws.wholeCells == nil {
+				ws.wholeCells = map[string]bool{}
+			}
+			ws.wholeCells[cellHeapName(T, c.Suffix)] = true
 		case "elem":
 			ws.heaps[elemHeapName(T, c.Suffix)] = arrSort(SInt, arrSort(SInt, c.Sort))
 		}
@@ -556,7 +574,22 @@ func (x *Exec) scanContractWrites(k *FuncSpec, ws *writeSet, callee *ssa.Functio
 						st0 := &State{heap: map[string]*Term{}, top: mkVar("top0", SInt)}
 						v, _ := x.eval(x.newEnv(st0, k.PkgPath), l.Cell)
 						if p, ok := v.(*PtrV); ok && p.Global != nil {
-							ws.addType(p.Global.Type().(*types.Pointer).Elem(), "cell")
+							et := p.Global.Type().(*types.Pointer).Elem()
+							if _, isS := isStructType(et); isS {
+								ws.addType(et, "cell")
+							} else {
+								ref := x.valRef(st0, v)
+								if ws.preciseCells == nil {
+									ws.preciseCells = map[string][]*Term{}
+									ws.preciseSort = map[string]Sort{}
+								}
+								for _, c := range comps(et) {
+									n := cellHeapName(et, c.Suffix)
+									ws.heaps[n] = arrSort(SInt, c.Sort)
+									ws.preciseCells[n] = append(ws.preciseCells[n], ref)
+									ws.preciseSort[n] = c.Sort
+								}
+							}
 							done = true
 						}
 					}()
